@@ -137,8 +137,58 @@ func (r *c05RoleMap) resolve() {
 				setMaps = append(setMaps, st.Field(i).Name())
 			}
 		}
-		// predecessors: the set-map the exported Predecessors reads; successors: the other one
+		// successors: the set-map that the index step (the function calling content.Successors, or a helper
+		// below it) updates under key(node) for its own node parameter; predecessors: the other one
 		if len(setMaps) == 2 {
+			for _, f := range p.FuncsOfPkg("internal/graph") {
+				if f.Parent() != nil || len(CallsTo(f, "~/content.Successors")) == 0 {
+					continue
+				}
+				var node *ssa.Parameter
+				for _, q := range f.Params {
+					if c05IsOCIDescriptor(q.Type()) {
+						node = q
+					}
+				}
+				hit := map[string]bool{}
+				for _, e := range c05TreeEnvs(c05Root(f), 3) {
+					AllInstrs(e.Fn, func(in ssa.Instruction) {
+						mu, ok := in.(*ssa.MapUpdate)
+						if !ok {
+							return
+						}
+						ld, ok := mu.Map.(*ssa.UnOp)
+						if !ok {
+							return
+						}
+						fa, ok := ld.X.(*ssa.FieldAddr)
+						if !ok || !c05IsNamedType(fa.X.Type(), "internal/graph", "Memory") {
+							return
+						}
+						name := c05FieldNameOf(fa.X.Type(), fa.Field)
+						if name != setMaps[0] && name != setMaps[1] {
+							return
+						}
+						kv, kat := e.up(mu.Key)
+						for _, r := range Roots(c05Unspill(kv)) {
+							if call, isCall := strip(r).(*ssa.Call); isCall && CalleeName(call) == "~/internal/descriptor.FromOCI" {
+								if x, xat := kat.up(call.Call.Args[0]); xat.isRoot() && node != nil && c05ParamOf(x) == node {
+									hit[name] = true
+								}
+							}
+						}
+					})
+				}
+				switch {
+				case hit[setMaps[0]] && !hit[setMaps[1]]:
+					r.field["graph.successors"], r.field["graph.predecessors"] = setMaps[0], setMaps[1]
+				case hit[setMaps[1]] && !hit[setMaps[0]]:
+					r.field["graph.successors"], r.field["graph.predecessors"] = setMaps[1], setMaps[0]
+				}
+			}
+		}
+		// fallback — predecessors: the set-map the exported Predecessors reads; successors: the other one
+		if len(setMaps) == 2 && r.field["graph.predecessors"] == "" {
 			if fn := p.Fn("internal/graph", "Memory.Predecessors"); fn != nil && len(fn.Blocks) > 0 {
 				read := map[string]bool{}
 				for _, e := range c05TreeEnvs(c05Root(fn), 3) {
